@@ -56,7 +56,7 @@ type C06Plan struct {
 	Nodes       []C06Node  `json:"nodes"`
 	Checkpoints []int      `json:"checkpoints"` // heights on the honest chain, ascending
 	DisableCP   bool       `json:"disableCP"`
-	Initial     string     `json:"initial"` // genesis | prefix | stalefork
+	Initial     string     `json:"initial"` // genesis | prefix | stalefork | tallstale | forkfirst
 	InitialArg  int        `json:"initialArg"`
 	Events      []C06Event `json:"events"`
 	ExpInbound  bool       `json:"expInbound"` // experimental engine: a second, inbound peer (node 1 if present)
@@ -155,6 +155,14 @@ func buildScenario(p *C06Plan, wrap stack.Options) (*scenario, error) {
 			}
 			add(sc.honest[:k])
 			add(sc.u.Extend(nil, len(sc.honest)+extra+7, 98, 0x1f00ffff)) // 65536 times lighter: even 4 500 of them weigh less than one honest block
+		case "forkfirst":
+			// the database was synced on the weaker branch of the first fork (its tip is the service's tip): the honest chain
+			// must take over, however many replies that needs and wherever the locator's sparse part meets the honest chain
+			if len(sc.forks) > 0 {
+				add(sc.forks[0])
+			} else {
+				add(sc.honest[:k])
+			}
 		case "stalefork":
 			// a short stale branch of its own plus a prefix of the honest chain
 			add(sc.honest[:k])
@@ -670,7 +678,7 @@ func genC06(t *rapid.T) *C06Plan {
 		lagging = lagging || n.Lag > 0
 	}
 	// forked universe (legacy engine): one more node holds a weaker branch that leaves the honest chain above the last
-	// checkpoint; every node then answers with the full cap (one reply must suffice to overtake)
+	// checkpoint
 	if p.Engine == "legacy" && rapid.IntRange(0, 3).Draw(t, "forkk") == 0 {
 		lastCP := p.Checkpoints[len(p.Checkpoints)-1]
 		if room := p.HonestLen - lastCP; room >= 2 {
@@ -680,8 +688,9 @@ func genC06(t *rapid.T) *C06Plan {
 			fn := C06Node{Branch: 0}
 			fn.Spec.Pver = 70015
 			p.Nodes = append(p.Nodes, fn)
-			for i := range p.Nodes {
-				p.Nodes[i].Spec.Cap = 2000
+			// (reply caps stay as drawn: headers of the honest chain that do not outweigh the fork yet must be followed up)
+			if rapid.IntRange(0, 2).Draw(t, "forkfirst") == 0 {
+				p.Initial = "forkfirst"
 			}
 			lagging = true // the service may sync the fork first; the honest node announces afterwards
 		}
